@@ -14,6 +14,7 @@ import (
 	"sort"
 
 	"github.com/RoaringBitmap/roaring/v2"
+	"github.com/RoaringBitmap/roaring/v2/roaring64"
 )
 
 var chunkCountsQuick []int
@@ -480,4 +481,134 @@ func c15Universe(c *Ctx) {
 	targets := append(argBattery(c.R, m, 12), 0, 1, 65535, 65536, 1<<31, max32-65536, max32-1, max32)
 	neighbourChecks(c, &BM{B: b, M: m}, targets, "")
 	c.Sample(map[string]any{"unit": "universe-scale", "case_seed": c.CaseSeed, "bitmap": what})
+}
+
+// ---------------------------------------------------------------- C18: every bucket count
+
+// The 64-bit analogue: the number of high-32 buckets (the 64-bit header, the plausibility checks of
+// FromUnsafeBytes and the bucket tables of the decoders depend on it). Quick: every count 0..1500; thorough:
+// every count 0..12000. Buckets are tiny (one value, a short run, two values).
+func bucketCounts(tier string) int {
+	if tier == "thorough" {
+		return 12001
+	}
+	return 1501
+}
+
+func c18EveryBucketCount(c *Ctx, n int) {
+	r := NewRng(mix(uint64(n), seedFromEnv()+77))
+	b := roaring64.New()
+	m := NewISet()
+	stride, base := uint64(1), uint64(0)
+	switch r.Intn(3) {
+	case 0:
+		base = r.Range(0, 1<<32-1-uint64(n))
+	case 1:
+		if n > 0 {
+			stride = (1 << 32) / uint64(n+1)
+		}
+	default:
+		base = 1<<32 - uint64(n) // ends at bucket 0xFFFFFFFF
+	}
+	mode := r.Intn(3) // 0 mixed, 1 single values (no run chunk anywhere), 2 one short run per bucket
+	for i := 0; i < n; i++ {
+		hi := (base + uint64(i)*stride) << 32
+		kind := r.Intn(3)
+		if mode == 1 {
+			kind = 0
+		} else if mode == 2 {
+			kind = 1
+		}
+		switch kind {
+		case 0:
+			v := hi | r.Range(0, max32)
+			b.Add(v)
+			m.Add(v)
+		case 1:
+			lo := hi | r.Range(0, 65000)
+			e := lo + r.Range(0, 40)
+			b.AddRange(lo, e+1)
+			m.AddRange(lo, e)
+		default:
+			v, w := hi|edgeVal64(r, m)&max32, hi|r.Range(0, max32)
+			b.Add(v)
+			b.Add(w)
+			m.Add(v)
+			m.Add(w)
+		}
+	}
+	if r.Chance(0.3) {
+		b.RunOptimize()
+	}
+	c.Step("roaring64 bitmap with exactly %d buckets (base %d stride %d mode %d)", n, base, stride, mode)
+	if d := checkEq64(b, m); d != "" {
+		c.Fail("64/build/n-buckets", "%s", d)
+		return
+	}
+	if n > 0 {
+		c.Distinct(uint64(n))
+	}
+	c.SetAdd("bucket_counts_enumerated", uint64(n))
+	c.Guard("64/every-bucket-count", func() {
+		if err := b.Validate(); err != nil {
+			c.Fail("64/validate/library-made", "%d buckets: Validate: %v", n, err)
+			return
+		}
+		wire, err := b.ToBytes()
+		if err != nil || uint64(len(wire)) != b.GetSerializedSizeInBytes() {
+			c.Fail("64/size/ToBytes-vs-GetSerializedSizeInBytes", "%d buckets: len(ToBytes)=%d err=%v GetSerializedSizeInBytes=%d", n, len(wire), err, b.GetSerializedSizeInBytes())
+			return
+		}
+		var buf bytes.Buffer
+		k, err := b.WriteTo(&buf)
+		if err != nil || k != int64(buf.Len()) || !bytes.Equal(buf.Bytes(), wire) {
+			c.Fail("64/WriteTo/bytes-or-count", "%d buckets: WriteTo returned (%d,%v), wrote %d bytes; ToBytes %d", n, k, err, buf.Len(), len(wire))
+			return
+		}
+		if ps, used, _, ok := parse64(wire); !ok || used != len(wire) || !ps.Equal(m) {
+			c.Fail("64/layout/independent-parser", "%d buckets: independent parse: ok=%v used=%d/%d equal=%v", n, ok, used, len(wire), ok && ps.Equal(m))
+			return
+		}
+		tail := []byte{7, 7, 7, 7, 7, 7, 7, 7, 7}
+		for _, name := range []string{"ReadFrom", "FromUnsafeBytes", "FromUnsafeBytes+tail", "UnmarshalBinary"} {
+			dst := roaring64.New()
+			var got int64
+			switch name {
+			case "ReadFrom":
+				rd := bytes.NewReader(append(append([]byte(nil), wire...), tail...))
+				got, err = dst.ReadFrom(rd)
+				if err == nil && rd.Len() != len(tail) {
+					c.Fail("64/ReadFrom/consumed-beyond-stream", "%d buckets: ReadFrom left %d bytes unread, the tail has %d", n, rd.Len(), len(tail))
+					return
+				}
+			case "FromUnsafeBytes":
+				got, err = dst.FromUnsafeBytes(heapInput(wire))
+			case "FromUnsafeBytes+tail":
+				got, err = dst.FromUnsafeBytes(heapInput(append(append([]byte(nil), wire...), tail...)))
+			default:
+				err = dst.UnmarshalBinary(heapInput(wire))
+				got = int64(len(wire))
+			}
+			if err != nil || got != int64(len(wire)) {
+				c.Fail("64/"+name+"/error-or-byte-count", "%d buckets: %s = (%d,%v) for a %d byte stream", n, name, got, err, len(wire))
+				return
+			}
+			if d := checkEq64(dst, m); d != "" {
+				c.Fail("64/"+name+"/content", "%d buckets: %s", n, d)
+				return
+			}
+			if err := dst.Validate(); err != nil {
+				c.Fail("64/validate/round-trip", "%d buckets: %s result fails Validate: %v", n, name, err)
+				return
+			}
+			c.Eval(3)
+		}
+		// the caller owns the returned bytes
+		for i := range wire {
+			wire[i] = 0xAA
+		}
+		if again, err := b.ToBytes(); err != nil || !bytes.Equal(again, buf.Bytes()) {
+			c.Fail("64/ToBytes/after-caller-overwrote-earlier-result", "%d buckets: a second ToBytes differs from WriteTo after the caller overwrote the first result", n)
+		}
+	})
 }
